@@ -6,6 +6,10 @@ HERE = os.path.dirname(os.path.dirname(os.path.abspath(__file__)))
 props = [json.loads(l) for l in open(os.path.join(HERE, "properties.jsonl"))]
 
 CLAIMS = {
+ "C09": dict(
+  technique="custom static checker: exhaustive partition over all ordered tag pairs driving a path walk of equals() and every getter, tag->union-member table extracted from the setValue overloads, interval (range) analysis of every explicit and implicit integer cast under the dominating sign guards",
+  text="For all 36 integer type pairs and all 6x6 getter/tag combinations the checker proves, over the complete value range of each type (not sampled values), that the selected comparison reads the members the tags were stored in and that every conversion clang inserted is value-preserving under the guards, so comparison equals comparison of mathematical values, symmetric because both orders are checked; mismatched non-integer tags never compare equal; doubles use the receiver's tolerance. String/buffer content comparison semantics are not decided here.",
+  note="Trusted: LP64 integer widths of the analysed target; clang's record of implicit conversions; doubles_equal is decided in C03."),
  "C19": dict(
   technique="custom static checker: table extraction of the three C function-pointer structs against the declared field names, per-forwarder sibling rule on resolved callee/overload/argument order, predicate-abstraction skeleton of the OrDefault getters, tag/enum/member/getter table of the tagged-union conversion",
   text="Interface agreement decided from the resolved program: all 125 slots hold the forwarder named for the field, every forwarder makes exactly one call to the C++ method of its family on the current object with exactly its own parameters and the overload of the type it is named for, OrDefault getters default iff there is no return value, the tagged-union conversion table is exact, adaptors and the C failure reporter mirror the C++ ones. Equality of complete failure text across interfaces is not decided.",
